@@ -6,7 +6,7 @@ EXTENDS Pipeline, Json
 AllClasses == {"cmd_added", "cmd_renamed", "param_type", "param_added", "param_renamed", "param_optional",
                "ret_type", "cmd_rename_all",
                "field_added", "field_type", "field_rename", "rename_identity", "rename_all", "skip_added",
-               "variant_added", "variant_rename", "validator", "validator_changed", "range_bound",
+               "variant_added", "variant_rename", "validator", "validator_changed", "range_bound", "length_min_zero",
                "event_payload", "event_renamed", "event_added", "event_struct",
                "channel_type", "channel_added",
                "mode", "type_mapping", "param_case", "field_case"}
